@@ -1,3 +1,4 @@
+import Sparrow.Proofs.SetterGlueEquiv
 import Sparrow.Proofs.ShapeLemmas
 import Sparrow.Proofs.CheckSound
 /-
@@ -107,3 +108,16 @@ theorem saveRestore_id (s t : St) (h : step s Op.saveRestore = some t) : t = s :
   Sparrow.Shape.saveRestore_id s t h
 
 end Sparrow.Props.C18.Shape
+
+namespace Sparrow.Props.C18.SetterGlue
+open Sparrow Sparrow.Generated.SetterGlue
+
+/-- a frequency vector that does not match the object's refuses the call (nothing is returned, nothing changes) -/
+theorem setWallBrdf_refuses_mismatch (rotate : (Nat → ℝ) → (Nat → ℝ) → C → C → C × C) (n : Nat) (wn wu : Nat → Nat → ℝ)
+    (st : MatState ℝ C) (ws : List Nat) (fq f0 : Nat × (Nat → ℝ)) (T : Nat → Nat → Nat → ℝ) (inc out : C)
+    (ok1 ok2 : Bool) (e : Nat → Nat → Nat → Nat → ℝ) (hf : st.frequencies = some f0)
+    (hne : f0.1 ≠ fq.1 ∨ ∃ k, k < f0.1 ∧ f0.2 k ≠ fq.2 k) :
+    setWallBrdf rotate n wn wu st ws fq T inc out ok1 ok2 e = none :=
+  Sparrow.setWallBrdf_refuses_mismatch rotate n wn wu st ws fq f0 T inc out ok1 ok2 e hf hne
+
+end Sparrow.Props.C18.SetterGlue
